@@ -448,14 +448,14 @@ const WPOOL: [i64; 30] = [0, 5, 999, 1000, 1001, 1099, 1100, 1101, 1971, 1999, 2
 const TMO: [u64; 6] = [1000, 4999, 5000, 5000, 5001, 60_000];
 const QPOOL: [f64; 8] = [0.0, 0.35, 0.5, 0.98, 1.0, 1.0, 1.1, 1.25];
 
-struct Gen { rng: Rng, n: usize, now: u64, next_seq: u32, len: usize, tmo: u64, recent: Vec<u32> }
+struct Gen { rng: Rng, n: usize, now: u64, next_seq: u32, len: usize, tmo: u64, recent: Vec<u32>, pending: Option<Op> }
 
 impl Gen {
     fn new(mut rng: Rng, n: usize, len: usize) -> Gen {
         let next_seq = match rng.below(5) { 0 => 0, 1 => 16_384 * 2 - 20, 2 => 0x7fff_ffff - 5000, _ => rng.below(1 << 30) as u32 };
         let now = 1_000 + rng.below(2_000);
         let tmo = *rng.pick(&TMO);
-        Gen { rng, n, now, next_seq, len, tmo, recent: vec![] }
+        Gen { rng, n, now, next_seq, len, tmo, recent: vec![], pending: None }
     }
     fn link(&mut self) -> usize { self.rng.below(self.n as u64) as usize }
     fn dt(&mut self) -> u64 {
@@ -496,6 +496,29 @@ impl Gen {
             return Some(if self.rng.chance(1, 3) { Op::SetQ(i, *self.rng.pick(&QPOOL)) } else { Op::Noise(self.rng.u64()) });
         }
         if k >= self.len { return None; }
+        if let Some(op) = self.pending.take() { return Some(op); }
+        // one SRTLA-ACK datagram naming several numbers of one link, with that link's window placed
+        // exactly at the +29 gate of a LATER entry: the per-entry +1 of the earlier entries decides
+        // whether the later entry earns +29 (the rules are applied entry by entry, in order)
+        if self.rng.chance(1, 25) {
+            let i = self.link();
+            let mut log: Vec<u32> = w.conns[i].packet_log.keys().map(|&x| x as u32).collect();
+            log.sort();
+            if log.len() >= 3 {
+                let inf = log.len() as i64;
+                let cnt = (2 + self.rng.below(3) as usize).min(log.len());
+                let pos = 1 + self.rng.below(cnt as u64 - 1) as i64;      // the later entry (0-based) whose gate we sit on
+                let d = *self.rng.pick(&[0i64, 1, 1, 2]);
+                // in-flight after entry `pos` is inf - pos - 1; gate there reads window + pos (the +1s so far)
+                let wv = (inf - pos - 1) * 1000 - d;
+                if wv > 0 {
+                    let t = self.dt();
+                    let seqs: Vec<u32> = log.iter().take(cnt).copied().collect();
+                    self.pending = Some(Op::SrtlaAck(i, seqs, t));
+                    return Some(Op::SetWindow(i, wv));
+                }
+            }
+        }
         let r = self.rng.below(1000);
         Some(if r < 430 {
             let t = self.dt();
